@@ -13,14 +13,14 @@ CHECKS = {
             "schedule exploration with waiting made visible (spin detection), deadlock rule, epilogue thread"),
     "C03": ("locks.cpp", "version ghost + commit counter: every VerifyVersion/TryLock*/GetVersion result is checked at its deciding atomic step against the registry and the ghost version, optimistic payload snapshots are compared with the committed value",
             "schedule exploration of OptimisticLock programs (readers x writers x lockers, start versions 0/2^32-1), version-ghost monitor"),
-    "C04": ("epoch.cpp", "after every ForwardGlobalEpoch: each guard created before the call and still alive is in the list published for the new epoch and GetMinEpoch() <= its epoch; includes ID reuse after thread exit with forced identical probe starts (capacity 1 and 2)",
+    "C04": ("epoch.cpp", "after every ForwardGlobalEpoch: each guard created before the call and still alive is in the list published for the new epoch and GetMinEpoch() <= its epoch; includes ID reuse after thread exit with forced identical probe starts (capacity 1 and 2), recycled std::thread::id, manager re-creation, and every well-formed worker script up to 4 (thorough 5) operations against a set of coordinator scripts",
             "schedule exploration of EpochManager workers x coordinator incl. thread exit under the scheduler; list read through the library's own accessor"),
-    "C05": ("idm.cpp", "range, stability and uniqueness-among-running-threads of every GetThreadID result for every multiset of probe start positions, capacities 1-4, up to capacity+2 threads",
+    "C05": ("idm.cpp", "range, stability and uniqueness-among-running-threads of every GetThreadID result for every multiset of probe start positions, capacities 1-4, up to capacity+2 threads; churn after a wave in which every ID was held and released, next to long-lived holders (barrier / stay operations that cost no preemption)",
             "schedule exploration of IDManager with forced probe starts (fake std::thread::id), all start multisets"),
     "C06": ("zipf_enum.cpp", "range and inverse-CDF bracket of operator() for every equivalence class of 64-bit engine outputs of every configuration of the grid, both classes, four integer types",
             "exhaustive enumeration of engine-output classes per configuration (bounded input model checking against the CDF)"),
     "C07": ("locks.cpp", "operator bool of every guard after every operation equals the reference ownership model; every release call performs exactly one release, non-owning guards write nothing; sequential guard algebra (move/convert/destroy chains on two locks) and the same with a contender",
-            "operation-sequence exploration (guards1: sequential, guards2/3: under all interleavings with contenders) against an ownership model"),
+            "operation-sequence exploration (guards1: sequential, guards2/3: under all interleavings with contenders) against an ownership model; deadlock with an empty grant registry = release that did not release"),
     "C08": ("locks.cpp", "happens-before event sets computed from the memory orders written in the source (C++20 release sequences, fences) on every explored SC interleaving: the end of every earlier conflicting section must happen-before the later section's grant",
             "schedule exploration + declared-order happens-before set analysis at every grant"),
     "C09": ("locks.cpp", "ghost version advanced exactly at exclusive-grant ends to the prescribed value; invariant version-field == ghost after every write to the lock word; XGuard::GetVersion; wrap-around and SetVersion arguments; final word = version only",
@@ -33,7 +33,7 @@ CHECKS = {
             "schedule exploration of MCSLock with heap shadow (arena allocator, never reuses within an execution)"),
     "C13": ("locks.cpp", "PrepareRead result checked at its deciding step: non-owning => version valid and no X registered; owning => registry empty at the granting CAS, VerifyVersion true, exactly one release (also after moves); retry numbers 0 and 1",
             "schedule exploration of PrepareRead callers x lockers with CPP_UTILITY_SPINLOCK_RETRY_NUM 0 and 1"),
-    "C14": ("idm.cpp", "oversubscribed runs (capacity+1, capacity+2 threads) must terminate; after all threads exited a fresh wave of `capacity` threads obtains IDs without any of them having to wait",
+    "C14": ("idm.cpp", "oversubscribed runs (capacity+1, capacity+2 threads) must terminate; after all threads exited a fresh wave of `capacity` threads obtains IDs without any of them having to wait inside GetThreadID; the same when a client pins the heartbeat of an exiting thread; nobody waits while a free ID exists (salted thread ids)",
             "schedule exploration incl. thread exit (TLS destructors scheduled) and a gated second wave"),
     "C15": ("idm.cpp", "at every GetThreadID return all heartbeats handed out to earlier owners of that ID are expired; heartbeats of running threads are never expired; all expired after join (shared_ptr reference drop is a schedulable step)",
             "schedule exploration of the exit path against concurrent claims (instrumented shared_ptr/weak_ptr)"),
